@@ -149,7 +149,7 @@ func (f *FaultFS) Writer(p string) (filesystem.Writer, error) {
 	if err != nil {
 		return nil, err
 	}
-	return &faultWriter{w: w, ctl: f.ctl, name: f.name + ":" + p}, nil
+	return &faultWriter{w: w, ctl: f.ctl, name: f.name + ":" + p, fs: f.FS, path: p}, nil
 }
 
 type faultReader struct {
@@ -177,6 +177,8 @@ type faultWriter struct {
 	w    filesystem.Writer
 	ctl  *FaultCtl
 	name string
+	fs   FS
+	path string
 }
 
 func (w *faultWriter) Write(p []byte) (int, error) {
@@ -187,8 +189,10 @@ func (w *faultWriter) Write(p []byte) (int, error) {
 }
 func (w *faultWriter) Close() error {
 	err := w.ctl.hit(w.name + " writer.Close")
-	cerr := w.w.Close()
+	cerr := w.w.Close() // always release the underlying handle
 	if err != nil {
+		// a failed Close means the data did not reach the store: emulate a torn write
+		w.fs.WriteFile(w.path, []byte("TORN-WRITE-AFTER-FAILED-CLOSE"), filesystem.DefaultUnixFileMode)
 		return err
 	}
 	return cerr
